@@ -9,6 +9,7 @@ import (
 	"fmt"
 	"io"
 	"os"
+	"os/signal"
 	"runtime"
 	"runtime/debug"
 	"sort"
@@ -68,6 +69,20 @@ func main() {
 	readline.VerifSetStdin(&gate{})
 
 	sessions := make(chan *proto.Spec)
+
+	// Our own view of SIGWINCH: the runtime offers each signal to every
+	// registered channel in the same pass, so once the driver has been told
+	// about n signals the library's handler has been offered all n.
+	winch := make(chan os.Signal, 1024)
+	signal.Notify(winch, syscall.SIGWINCH)
+
+	go func() {
+		n := 0
+		for range winch {
+			n++
+			emit(&proto.Event{Ev: "winch", Tag: n})
+		}
+	}()
 
 	go func() {
 		for {
@@ -292,6 +307,14 @@ func (g *gate) Read(buf []byte) (int, error) {
 			return os.Stdin.Read(buf)
 		}
 	}
+}
+
+// holdProbe is the body of a "hold" command: it blocks until released (its
+// name is what the driver looks for in goroutine dumps).
+func holdProbe(name string, ch chan struct{}) {
+	emit(&proto.Event{Ev: "probe-hold", Name: name, After: parkN})
+	<-ch
+	emit(&proto.Event{Ev: "probe-released", Name: name, After: parkN})
 }
 
 // ---------------------------------------------------------------------------
@@ -610,11 +633,7 @@ func configure(shell *readline.Shell, spec *proto.Spec, srcs *[]readline.History
 			curMu.Lock()
 			holds[p.Name] = ch
 			curMu.Unlock()
-			probes[p.Name] = func() {
-				emit(&proto.Event{Ev: "probe-hold", Name: p.Name, After: parkN})
-				<-ch
-				emit(&proto.Event{Ev: "probe-released", Name: p.Name, After: parkN})
-			}
+			probes[p.Name] = func() { holdProbe(p.Name, ch) }
 		case strings.HasPrefix(p.Kind, "setlocal:"):
 			km := strings.TrimPrefix(p.Kind, "setlocal:")
 			probes[p.Name] = func() {
